@@ -298,7 +298,10 @@ fn main() {
     let regr = regression();
     ev.set_extra("corpus_sources", json!(corpus.len()));
     ev.set_extra("regression_sources", json!(regr.len()));
-    let total: u64 = regr.len() as u64 + opts.tier.pick(12_000u64, 400_000u64);
+    let cases_override: Option<u64> = opts.extra.iter().position(|x| x == "--cases").and_then(|i| opts.extra.get(i + 1)).and_then(|x| x.parse().ok());
+    let total: u64 = regr.len() as u64 + DEEP_PAREN_CASES as u64 + cases_override.unwrap_or(opts.tier.pick(12_000u64, 400_000u64));
+    let verbose = opts.has_flag("--verbose");
+    let t_start = std::time::Instant::now();
     let exe = std::env::current_exe().unwrap();
     let mut next: u64 = 0;
     let mut restarts = 0u64;
@@ -340,6 +343,9 @@ fn main() {
                     // result of case i
                     current = None;
                     next = i + 1;
+                    if verbose && i % 500 == 0 {
+                        eprintln!("[{:.1}s] case {i}", t_start.elapsed().as_secs_f64());
+                    }
                     let (stream, src) = gen_case(opts.seed, i, &corpus, &regr);
                     ev.case(&src, !src.is_empty());
                     ev.hit(&format!("robust:stream:{stream}"));
@@ -409,6 +415,9 @@ fn main() {
                     let _ = ch.kill();
                     let i = current.unwrap_or(next);
                     let (stream, src) = gen_case(opts.seed, i, &corpus, &regr);
+                    if verbose {
+                        eprintln!("[{:.1}s] TIMEOUT case {i} stream {stream}: {:?}", t_start.elapsed().as_secs_f64(), src.chars().take(120).collect::<String>());
+                    }
                     ev.case(&src, true);
                     ev.hit(&format!("robust:stream:{stream}"));
                     ev.hit("robust:violation:timeout");
@@ -420,6 +429,9 @@ fn main() {
                         "unexplained"
                     };
                     let sig = format!("robust kind=timeout cause={cause}");
+                    if verbose {
+                        eprintln!("[{:.1}s] classified {sig}", t_start.elapsed().as_secs_f64());
+                    }
                     let small = if ev.is_known(&sig) && ev.counters.contains_key(&format!("robust:shrunk:{sig}")) {
                         src.clone()
                     } else {
@@ -427,6 +439,9 @@ fn main() {
                         let mut pred = |s: &str| matches!(probe(s, Duration::from_secs(2)), Probe::Timeout);
                         shrink(&src, &mut pred, 14)
                     };
+                    if verbose {
+                        eprintln!("[{:.1}s] shrunk to {} chars", t_start.elapsed().as_secs_f64(), small.len());
+                    }
                     let parens = small.chars().filter(|c| *c == '(').count();
                     ev.violation(
                         &sig,
@@ -435,13 +450,20 @@ fn main() {
                         true,
                     );
                     next = i + 1;
+                    current = None;
                     break;
                 }
                 Err(mpsc::RecvTimeoutError::Disconnected) => break,
             }
         }
         let status = ch.wait().map(|s| format!("{s}")).unwrap_or_default();
+        if verbose {
+            eprintln!("[{:.1}s] child ended: {status}", t_start.elapsed().as_secs_f64());
+        }
         let _ = reader.join();
+        if verbose {
+            eprintln!("[{:.1}s] reader joined", t_start.elapsed().as_secs_f64());
+        }
         if done {
             break;
         }
